@@ -1892,7 +1892,7 @@ pub fn run(a: &Args) -> i32 {
     // ---- (1) matrix
     let mparams = matrix(quick);
     let mcases: Vec<Case> = mparams.iter().filter_map(|p| matrix_case_t(p.0, p.1, p.2, p.3, p.4)).collect();
-    let mres = run_all(&scratch, &mcases, threads, secs(if quick { 30 } else { 200 }), "m");
+    let mres = run_all(&scratch, &mcases, threads, secs(if quick { 40 } else { 200 }), "m");
     if mres.len() < mcases.len() {
         ctx.count("matrix_cells_skipped_time_budget", (mcases.len() - mres.len()) as u64);
     }
@@ -1917,7 +1917,7 @@ pub fn run(a: &Args) -> i32 {
     for (c, _, p) in &mviol {
         let has_features = c.spec.uniq || c.spec.idx_a || c.spec.key != KeyKind::NoPk;
         let explained = cells.iter().chain(reduced.iter()).any(|y| y.sig != c.sig && explains(y, c));
-        if has_features && !explained && std::time::Instant::now() < secs(if quick { 36 } else { 230 }) {
+        if has_features && !explained && std::time::Instant::now() < secs(if quick { 46 } else { 260 }) {
             if let Some((case2, out2)) = reduce_features(&scratch, *p, &c.assertion, &c.cause) {
                 ctx.count("matrix_cells_reduced_to_fewer_table_features", 1);
                 tally(&mut ctx, &case2, &out2);
@@ -1938,6 +1938,7 @@ pub fn run(a: &Args) -> i32 {
         ctx.violation(&c.assertion, &by.sig, detail);
     }
 
+    ctx.count("phase_seconds_scripted_and_matrix", t0.elapsed().as_secs());
     // ---- (2) generated histories
     let (n_small, n_bulk) = if quick { (240usize, 6usize) } else { (12000, 150) };
     let mut seeds = Rng::derive(a.seed, 7);
@@ -1956,11 +1957,12 @@ pub fn run(a: &Args) -> i32 {
             gen_case(seeds.next(), shape)
         })
         .collect();
-    let res = run_all(&scratch, &cases, threads, secs(if quick { 38 } else { 420 }), "w");
+    let res = run_all(&scratch, &cases, threads, secs(if quick { 43 } else { 340 }), "w");
     if res.len() < cases.len() {
         ctx.count("generated_cases_skipped_time_budget", (cases.len() - res.len()) as u64);
     }
-    let shrink_deadline = secs(if quick { 43 } else { 550 });
+    ctx.count("phase_seconds_until_generated_done", t0.elapsed().as_secs());
+    let shrink_deadline = secs(if quick { 45 } else { 520 });
     let mut pending: Vec<(usize, Viol, Cell)> = vec![];
     for (i, out) in &res {
         let case = &cases[*i];
@@ -1983,52 +1985,87 @@ pub fn run(a: &Args) -> i32 {
             }
         }
     }
-    // violations no matrix cell explains: shrink, then let the minimal case explain the others
-    for (i, v, c) in pending {
-        if let Some(by) = cells.iter().find(|y| explains(y, &c)) {
-            ctx.count("generated_violations_explained_by_simpler_failing_case", 1);
-            *by_sig.entry(by.sig.clone()).or_insert(0) += 1;
-            let detail = json!({"generated_case": i, "script": c.script, "detail": v.detail, "simplest_failing_case": by.script});
-        show(&mut shown, &by.sig, &detail);
-        ctx.violation(&v.assertion, &by.sig, detail);
-            continue;
+    // violations no matrix cell explains: shrink (rounds of up to 8 in parallel, one per distinct raw class), then let
+    // the minimal cases explain the others
+    let mut pending = pending;
+    let hard = secs(if quick { 48 } else { 545 });
+    let budget = if quick { 36 } else { 140 };
+    loop {
+        // attribute what can be explained by now
+        let mut rest = vec![];
+        for (i, v, c) in pending {
+            if let Some(by) = cells.iter().find(|y| explains(y, &c)) {
+                ctx.count("generated_violations_explained_by_simpler_failing_case", 1);
+                *by_sig.entry(by.sig.clone()).or_insert(0) += 1;
+                let detail = json!({"generated_case": i, "script": c.script, "detail": v.detail, "simplest_failing_case": by.script});
+                show(&mut shown, &by.sig, &detail);
+                ctx.violation(&v.assertion, &by.sig, detail);
+            } else {
+                rest.push((i, v, c));
+            }
+        }
+        pending = rest;
+        if pending.is_empty() {
+            break;
         }
         if std::time::Instant::now() > shrink_deadline {
-            // out of time: reported under the unshrunk facts (stable only up to the generator's mix of statements)
-            ctx.count("violations_not_shrunk_time_budget", 1);
-            let sig = format!("C07/{}/not_minimised/{}", v.assertion, v.cause);
-            *by_sig.entry(sig.clone()).or_insert(0) += 1;
-            let detail = json!({"generated_case": i, "script": c.script, "detail": v.detail});
-        show(&mut shown, &sig, &detail);
-        ctx.violation(&v.assertion, &sig, detail);
-            continue;
+            // out of time: reported under assertion and cause only
+            for (i, v, c) in pending.drain(..) {
+                ctx.count("violations_not_shrunk_time_budget", 1);
+                let sig = format!("C07/{}/not_minimised/{}", v.assertion, v.cause);
+                *by_sig.entry(sig.clone()).or_insert(0) += 1;
+                let detail = json!({"generated_case": i, "script": c.script, "detail": v.detail});
+                show(&mut shown, &sig, &detail);
+                ctx.violation(&v.assertion, &sig, detail);
+            }
+            break;
         }
-        ctx.count("violations_shrunk", 1);
-        let (small, sout, complete) = shrink(&scratch, &cases[i], &v.assertion, &v.cause, if quick { 36 } else { 140 }, secs(if quick { 47 } else { 575 }));
-        let (mut sc, sdetail) = match sout.viols.iter().find(|x| x.assertion == v.assertion && x.cause == v.cause) {
-            Some(sv) => (cell_of(sv, &small, &sout), sv.detail.clone()),
-            None => (c.clone(), v.detail.clone()), // not reproducible on re-run: keep the original facts
-        };
-        if !complete {
-            // the time budget ended in the middle of the minimisation: the half-shrunk facts are not a stable signature
-            ctx.count("violations_not_shrunk_time_budget", 1);
-            sc.sig = format!("C07/{}/not_minimised/{}", v.assertion, v.cause);
+        // one representative per raw class, at most `threads`
+        let mut picked: Vec<usize> = vec![];
+        let mut classes: BTreeSet<String> = BTreeSet::new();
+        for (k, (_, v, c)) in pending.iter().enumerate() {
+            if picked.len() < threads && classes.insert(format!("{}/{}/{}/{}", v.assertion, v.cause, c.via, c.spec.traits())) {
+                picked.push(k);
+            }
         }
-        // the minimal case may itself be explained by a matrix cell (it needed the generated context only by accident)
-        let by = cells.iter().find(|y| explains(y, &sc)).cloned().unwrap_or_else(|| sc.clone());
-        if !complete {
-            let detail = json!({"generated_case": i, "partly_minimised_script": sc.script, "detail": sdetail, "original_script": c.script});
+        let jobs: Vec<(usize, Viol, Cell)> = picked.iter().rev().map(|k| pending.remove(*k)).collect();
+        let shrunk = std::sync::Mutex::new(vec![]);
+        std::thread::scope(|sc| {
+            for (t, job) in jobs.iter().enumerate() {
+                let (shrunk, scratch, cases) = (&shrunk, &scratch, &cases);
+                sc.spawn(move || {
+                    let sub = Scratch { root: scratch.root.join(format!("shrink{}", t)) };
+                    let _ = std::fs::create_dir_all(&sub.root);
+                    let r = shrink(&sub, &cases[job.0], &job.1.assertion, &job.1.cause, budget, hard);
+                    shrunk.lock().unwrap().push((t, r));
+                });
+            }
+        });
+        let mut shrunk = shrunk.into_inner().unwrap();
+        shrunk.sort_by_key(|x| x.0);
+        for (t, (small, sout, complete)) in shrunk {
+            let (i, v, c) = &jobs[t];
+            ctx.count("violations_shrunk", 1);
+            let (mut sc, sdetail) = match sout.viols.iter().find(|x| x.assertion == v.assertion && x.cause == v.cause) {
+                Some(sv) => (cell_of(sv, &small, &sout), sv.detail.clone()),
+                None => (c.clone(), v.detail.clone()), // not reproducible on re-run: keep the original facts
+            };
+            if !complete {
+                // the time budget ended in the middle of the minimisation: the half-shrunk facts are not a stable signature
+                ctx.count("violations_not_shrunk_time_budget", 1);
+                sc.sig = format!("C07/{}/not_minimised/{}", v.assertion, v.cause);
+            }
+            // the minimal case may itself be explained by a matrix cell (it needed the generated context only by accident)
+            let by = cells.iter().find(|y| explains(y, &sc)).cloned().unwrap_or_else(|| sc.clone());
             *by_sig.entry(by.sig.clone()).or_insert(0) += 1;
+            let later: Vec<String> = if sout.via == "later" { small.later.iter().map(|r| format!("INSERT INTO t VALUES {}", row_sql(&small.spec, r))).collect() } else { vec![] };
+            let detail = json!({"generated_case": i, "minimal_script": sc.script, "minimisation_complete": complete, "minimal_later_inserts": later, "minimal_detail": sdetail, "table_root_page_at_rollback": sout.root_at_rollback, "statements_failed_inside_txn": sout.failed_kinds, "original_script": c.script, "original_detail": v.detail});
             show(&mut shown, &by.sig, &detail);
             ctx.violation(&v.assertion, &by.sig, detail);
-            continue;
+            if complete {
+                cells.push(sc);
+            }
         }
-        *by_sig.entry(by.sig.clone()).or_insert(0) += 1;
-        let later: Vec<String> = if sout.via == "later" { small.later.iter().map(|r| format!("INSERT INTO t VALUES {}", row_sql(&small.spec, r))).collect() } else { vec![] };
-        let detail = json!({"generated_case": i, "minimal_script": sc.script, "minimal_later_inserts": later, "minimal_detail": sdetail, "table_root_page_at_rollback": sout.root_at_rollback, "statements_failed_inside_txn": sout.failed_kinds, "original_script": c.script, "original_detail": v.detail});
-        show(&mut shown, &by.sig, &detail);
-        ctx.violation(&v.assertion, &by.sig, detail);
-        cells.push(sc);
         cells.sort_by_key(rank);
     }
     ctx.extra.insert("violations_by_signature".into(), json!(by_sig));
